@@ -86,6 +86,7 @@ struct Shared {
     write_stall: Option<(usize, Duration)>,
     stall_until: Option<Duration>,
     total_written: usize,
+    total_read: usize,
     reads_polled: u64,
     closed: bool,
     dropped: bool,
@@ -134,6 +135,7 @@ pub fn script_io(
         write_stall: None,
         stall_until: None,
         total_written: 0,
+        total_read: 0,
         reads_polled: 0,
         closed: false,
         dropped: false,
@@ -207,7 +209,9 @@ impl AsyncRead for ScriptIo {
         buf: &mut ReadBuf<'_>,
     ) -> Poll<io::Result<()>> {
         let this = &mut *self;
-        let mut g = this.shared.lock().unwrap();
+        let mut guard = this.shared.lock().unwrap();
+        // a plain reference: the fields can then be borrowed independently
+        let g: &mut Shared = &mut guard;
         g.reads_polled += 1;
         let now = Instant::now() - g.start;
         let start = g.start;
@@ -222,7 +226,6 @@ impl AsyncRead for ScriptIo {
                     // not yet available: arm a timer
                     let deadline = start + *at;
                     g.waker = Some(cx.waker().clone());
-                    drop(g);
                     let mut sleep = Box::pin(tokio::time::sleep_until(deadline));
                     match sleep.as_mut().poll(cx) {
                         Poll::Ready(()) => {
@@ -246,6 +249,7 @@ impl AsyncRead for ScriptIo {
                             }
                             let n = std::cmp::min(buf.remaining(), bytes.len());
                             buf.put_slice(&bytes[..n]);
+                            g.total_read += n;
                             if n == bytes.len() {
                                 g.queue.pop_front();
                             } else {
@@ -316,6 +320,11 @@ impl AsyncWrite for ScriptIo {
             this.wsleep = None;
         }
         g.total_written += data.len();
+        // a session that keeps writing without end would exhaust the memory of the process: after
+        // 256 KiB plus 16 times what it has read on that connection every further write fails
+        if g.total_written > 256 * 1024 + 16 * g.total_read {
+            return Poll::Ready(Err(io::Error::new(io::ErrorKind::Other, "harness: runaway writer on a simulated connection (more than 256 KiB + 16 x the bytes read)")));
+        }
         let idx = g.writes_seen;
         g.writes_seen += 1;
         if let Some((n, kind)) = g.fail_write_at {
